@@ -1,2 +1,4 @@
 pub mod dir;
 pub mod repl;
+pub mod auth;
+pub mod tokens;
